@@ -140,10 +140,10 @@ theorem commandSet_user {tab : Option Table} {id : Id} {r : Reg} (hw : TWf tab)
           rw [liveL_append, liveL_cons]; simp [Slot.live]
         refine ⟨⟨?_, ?_, ?_⟩, Or.inr ⟨?_, rfl, by simp, ?_⟩⟩
         · rw [liveList_some, happ]
-          simp only [List.map_append, List.map_cons, List.map_nil, List.nodup_append, List.nodup_cons, List.mem_append, List.mem_cons, List.mem_map] at hk hnone ⊢
+          simp only [List.map_append, List.map_cons, List.map_nil, List.nodup_append, List.nodup_cons, List.mem_cons, List.mem_map] at hk hnone ⊢
           grind
         · rw [liveList_some, happ]
-          simp only [List.map_append, List.map_cons, List.map_nil, List.nodup_append, List.nodup_cons, List.mem_append, List.mem_cons, List.mem_map] at hr hfresh ⊢
+          simp only [List.map_append, List.map_cons, List.map_nil, List.nodup_append, List.nodup_cons, List.mem_cons, List.mem_map] at hr hfresh ⊢
           grind
         · intro t' ht'
           cases ht'
@@ -286,6 +286,508 @@ theorem emitResolved_spec {d : Disp} {cmd : Option (Nat × Slot)} {evid : Id} {r
       have := key r
       simp only [he] at this
       exact this
+
+
+/- ---------- the refinement relation ---------- -/
+structure Rel (m : St) (sp : Spec) : Prop where
+  live : ∀ p, p ∈ liveList m.d.tab ↔ p ∈ sp.live
+  fb : sp.fb = m.d.err
+  dflt : sp.dflt = m.d.dflt
+  next : sp.next = m.next
+
+theorem Rel.init (fb : Bool) : Rel (St.init fb) (Spec.init fb) := by
+  constructor <;> simp [St.init, Spec.init, liveList]
+
+theorem Rel.fresh {m : St} {sp : Spec} (hr : Rel m sp) (hs : SInv sp) :
+    ∀ p, p ∈ liveList m.d.tab → p.2 ≠ m.next := by
+  intro p hp
+  have := hs.live_lt' ((hr.live p).mp hp)
+  rw [hr.next] at this
+  exact Nat.ne_of_lt this
+
+theorem Rel.lookup_some {m : St} {sp : Spec} (hr : Rel m sp) (hs : SInv sp) {id : Id} {r : Reg}
+    (h : (id, r) ∈ liveList m.d.tab) : sp.lookup id = some r :=
+  (Spec.lookup_eq_some hs.keys).mpr ((hr.live _).mp h)
+
+theorem Rel.lookup_none {m : St} {sp : Spec} (hr : Rel m sp) {id : Id}
+    (h : ∀ r, (id, r) ∉ liveList m.d.tab) : sp.lookup id = none :=
+  Spec.lookup_eq_none.mpr (fun r hm => h r ((hr.live _).mpr hm))
+
+theorem refines_set {m : St} {sp : Spec} {id : Id} (hw : TWf m.d.tab) (hr : Rel m sp) (hs : SInv sp) :
+    ∃ sp', sp.step (.set id) (step m (.set id)).2 = some sp' ∧ Rel (step m (.set id)).1 sp' ∧ TWf (step m (.set id)).1.d.tab := by
+  obtain ⟨hw', hdf, herr, hcase⟩ := dispatchSet_user (id := id) hw (hr.fresh hs)
+  simp only [step, Spec.step]
+  generalize dispatchSet m.d id (some .user) m.next = res at hw' hdf herr hcase
+  rcases hcase with ⟨old, hold, hlog, hret, hsame⟩ | ⟨hnone, hlog, hret, hlive⟩
+  · have hlk := hr.lookup_some hs hold
+    refine ⟨{ sp with next := sp.next + 1 }, ?_, ?_, hw'⟩
+    · simp only [Spec.stepRegister, hlk, hlog, Spec.isOk, Spec.isErr]
+      have : ¬ (0 ≤ res.2.1) := by omega
+      simp [this, hret]
+    · rw [hsame]
+      exact ⟨hr.live, hr.fb, hr.dflt, by simp [hr.next]⟩
+  · have hlk := hr.lookup_none hnone
+    refine ⟨{ sp with live := sp.live ++ [(id, sp.next)], next := sp.next + 1, regd := sp.regd ++ [sp.next] }, ?_, ?_, hw'⟩
+    · simp only [Spec.stepRegister, hlk, hlog, Spec.isOk]
+      simp [hret]
+    · constructor
+      · intro p
+        simp only [hlive p, List.mem_append, List.mem_singleton, hr.live p, hr.next]
+      · simp only [herr]; exact hr.fb
+      · simp only [hdf]; exact hr.dflt
+      · simp [hr.next]
+
+
+theorem refines_cset {m : St} {sp : Spec} {id : Id} (hw : TWf m.d.tab) (hr : Rel m sp) (hs : SInv sp) :
+    ∃ sp', sp.step (.cset id) (step m (.cset id)).2 = some sp' ∧ Rel (step m (.cset id)).1 sp' ∧ TWf (step m (.cset id)).1.d.tab := by
+  obtain ⟨hw', hcase⟩ := commandSet_user (id := id) hw (hr.fresh hs)
+  simp only [step, Spec.step]
+  generalize commandSet m.d.tab id (some .user) m.next = res at hw' hcase
+  rcases hcase with ⟨old, hold, hlog, hret, hlive⟩ | ⟨hnone, hlog, hret, hlive⟩
+  · have hlk := hr.lookup_some hs hold
+    refine ⟨{ sp with live := sp.remove id ++ [(id, sp.next)], next := sp.next + 1, regd := sp.regd ++ [sp.next] }, ?_, ?_, hw'⟩
+    · simp only [Spec.stepRegister, hlk, hlog, Spec.isOk]
+      simp [hret]
+    · constructor
+      · intro p
+        simp only [hlive p, List.mem_append, List.mem_singleton, Spec.mem_remove, hr.live p, hr.next]
+      · exact hr.fb
+      · exact hr.dflt
+      · simp [hr.next]
+  · have hlk := hr.lookup_none hnone
+    refine ⟨{ sp with live := sp.live ++ [(id, sp.next)], next := sp.next + 1, regd := sp.regd ++ [sp.next] }, ?_, ?_, hw'⟩
+    · simp only [Spec.stepRegister, hlk, hlog, Spec.isOk]
+      simp [hret]
+    · constructor
+      · intro p
+        simp only [hlive p, List.mem_append, List.mem_singleton, hr.live p, hr.next]
+      · exact hr.fb
+      · exact hr.dflt
+      · simp [hr.next]
+
+theorem refines_clear {m : St} {sp : Spec} {id : Id} (hw : TWf m.d.tab) (hr : Rel m sp) (hs : SInv sp) :
+    ∃ sp', sp.step (.clear id) (step m (.clear id)).2 = some sp' ∧ Rel (step m (.clear id)).1 sp' ∧ TWf (step m (.clear id)).1.d.tab := by
+  obtain ⟨hw', hdf, herr, hcase⟩ := dispatchSet_clear (id := id) hw
+  simp only [step, Spec.step]
+  rcases hcase with ⟨old, hold, hlog, hret, hlive⟩ | ⟨hnone, hlog, hret, hsame⟩
+  · have hlk := hr.lookup_some hs hold
+    refine ⟨{ sp with live := sp.remove id }, ?_, ?_, hw'⟩
+    · simp only [hlk, hlog, Spec.isOk]
+      simp [hret]
+    · constructor
+      · intro p
+        simp only [hlive p, Spec.mem_remove, hr.live p]
+      · simp only [herr]; exact hr.fb
+      · simp only [hdf]; exact hr.dflt
+      · exact hr.next
+  · have hlk := hr.lookup_none hnone
+    refine ⟨sp, ?_, ?_, hw'⟩
+    · simp only [hlk, hlog, Spec.isErr]
+      simp [hret]
+    · rw [hsame]
+      exact ⟨hr.live, hr.fb, hr.dflt, hr.next⟩
+
+theorem fin_map_nodup {l : List (Id × Reg)} (h : (l.map (·.2)).Nodup) : (l.map (LogE.fin ·.2)).Nodup := by
+  have : l.map (LogE.fin ·.2) = (l.map (·.2)).map LogE.fin := by simp
+  rw [this]
+  generalize l.map (·.2) = rs at h
+  induction rs with
+  | nil => simp
+  | cons r rest ih =>
+    simp only [List.map_cons, List.nodup_cons, List.mem_map, LogE.fin.injEq] at h ⊢
+    exact ⟨by simpa using h.1, ih h.2⟩
+
+theorem refines_clearAll {m : St} {sp : Spec} (hw : TWf m.d.tab) (hr : Rel m sp) (_hs : SInv sp) :
+    ∃ sp', sp.step .clearAll (step m .clearAll).2 = some sp' ∧ Rel (step m .clearAll).1 sp' ∧ TWf (step m .clearAll).1.d.tab := by
+  simp only [step, Spec.step]
+  have hlog : (commandClear m.d.tab).2 = (liveList m.d.tab).map (.fin ·.2) := by
+    unfold commandClear
+    cases ht : m.d.tab with
+    | none => simp [liveList]
+    | some t => simp only [liveList_some]; exact clear_log (hw.user t ht)
+  have hlive : liveList (commandClear m.d.tab).1 = [] := by
+    unfold commandClear
+    cases m.d.tab <;> simp [liveList]
+  have hw' : TWf (commandClear m.d.tab).1 := by
+    constructor
+    · rw [hlive]; simp
+    · rw [hlive]; simp
+    · intro t ht
+      unfold commandClear at ht
+      cases h : m.d.tab with
+      | none => rw [h] at ht; cases ht
+      | some t0 =>
+        rw [h] at ht
+        simp only [Option.some.injEq] at ht
+        subst ht
+        intro s hs; simp at hs
+  refine ⟨{ sp with live := [] }, ?_, ?_, hw'⟩
+  · have : Spec.sameSet (commandClear m.d.tab).2 (sp.live.map (.fin ·.2)) = true := by
+      rw [sameSet_iff, hlog]
+      refine ⟨fin_map_nodup hw.regs, ?_⟩
+      intro e
+      simp only [List.mem_map]
+      constructor
+      · rintro ⟨p, hp, rfl⟩; exact ⟨p, (hr.live p).mp hp, rfl⟩
+      · rintro ⟨p, hp, rfl⟩; exact ⟨p, (hr.live p).mpr hp, rfl⟩
+    simp [Spec.isOk, this]
+  · constructor
+    · intro p; simp only [hlive]
+    · exact hr.fb
+    · exact hr.dflt
+    · exact hr.next
+
+
+/-- a resolved element is a harness handler -/
+theorem get_user {tab : Option Table} (hw : TWf tab) {id : Id} :
+    ∀ i s, commandGet tab id = some (i, s) → s.cmd = some .user := by
+  intro i s hg
+  obtain ⟨t, rfl, hi, hl, _⟩ := commandGet_some hg
+  have := hw.user t rfl s (List.mem_of_getElem? hi)
+  unfold Slot.live at hl
+  cases hc : s.cmd with
+  | none => rw [hc] at hl; cases hl
+  | some h => cases h with
+    | user => rfl
+    | logReply => exact absurd hc this
+
+/-- the registration `mpt_command_get` resolves is the one the spec map holds, else the fallback -/
+theorem target_eq {m : St} {sp : Spec} {id : Id} (hr : Rel m sp) (hs : SInv sp) :
+    sp.target id = resolveReg (commandGet m.d.tab id) m.d.err := by
+  unfold Spec.target resolveReg
+  cases hg : commandGet m.d.tab id with
+  | some x =>
+    obtain ⟨i, s⟩ := x
+    obtain ⟨t, htab, hi, hl, hid⟩ := commandGet_some hg
+    have : (id, s.arg) ∈ liveList m.d.tab := by
+      rw [htab, liveList_some, ← hid]; exact mem_liveL_of_getElem hi hl
+    rw [hr.lookup_some hs this]
+  | none =>
+    rw [hr.lookup_none (commandGet_none hg)]
+    exact hr.fb
+
+theorem lookup_eq {m : St} {sp : Spec} {id : Id} (hr : Rel m sp) (hs : SInv sp) :
+    sp.lookup id = (commandGet m.d.tab id).map (·.2.arg) := by
+  cases hg : commandGet m.d.tab id with
+  | some x =>
+    obtain ⟨i, s⟩ := x
+    obtain ⟨t, htab, hi, hl, hid⟩ := commandGet_some hg
+    have : (id, s.arg) ∈ liveList m.d.tab := by
+      rw [htab, liveList_some, ← hid]; exact mem_liveL_of_getElem hi hl
+    rw [hr.lookup_some hs this]; rfl
+  | none =>
+    rw [hr.lookup_none (commandGet_none hg)]; rfl
+
+/-- `emitResolved` against `stepEmit` -/
+theorem refines_resolved {m : St} {sp : Spec} {id : Id} {h : HRes} (hw : TWf m.d.tab) (hr : Rel m sp) (hs : SInv sp) :
+    ∃ sp', sp.stepEmit id h (emitResolved m.d (commandGet m.d.tab id) id h).2 = some sp' ∧
+      Rel { m with d := (emitResolved m.d (commandGet m.d.tab id) id h).1 } sp' ∧
+      (emitResolved m.d (commandGet m.d.tab id) id h).1.tab = m.d.tab := by
+  rw [emitResolved_spec (get_user hw)]
+  unfold Spec.stepEmit
+  rw [target_eq hr hs]
+  generalize resolveReg (commandGet m.d.tab id) m.d.err = tgt
+  cases tgt with
+  | none =>
+    refine ⟨sp, ?_, ?_, rfl⟩
+    · simp [Spec.isErr]
+    · exact ⟨hr.live, hr.fb, hr.dflt, hr.next⟩
+  | some r =>
+    refine ⟨{ sp with dflt := (book sp.dflt id h).2 }, ?_, ?_, rfl⟩
+    · simp [Spec.stepDeliver, hr.dflt]
+    · exact ⟨hr.live, hr.fb, by simp [hr.dflt], hr.next⟩
+
+theorem refines_emitId {m : St} {sp : Spec} {id : Id} {h : HRes} (hw : TWf m.d.tab) (hr : Rel m sp) (hs : SInv sp) :
+    ∃ sp', sp.step (.emitId id h) (step m (.emitId id h)).2 = some sp' ∧ Rel (step m (.emitId id h)).1 sp' ∧
+      TWf (step m (.emitId id h)).1.d.tab := by
+  obtain ⟨sp', h1, h2, h3⟩ := refines_resolved (id := id) (h := h) hw hr hs
+  refine ⟨sp', ?_, ?_, ?_⟩
+  · simpa [step, Spec.step, dispatchEmit] using h1
+  · simpa [step, dispatchEmit] using h2
+  · simp only [step, dispatchEmit]; rw [h3]; exact hw
+
+theorem refines_emitMsg {m : St} {sp : Spec} {msg : List Byte} {h : HRes} (hw : TWf m.d.tab) (hr : Rel m sp) (hs : SInv sp) :
+    ∃ sp', sp.step (.emitMsg msg h) (step m (.emitMsg msg h)).2 = some sp' ∧ Rel (step m (.emitMsg msg h)).1 sp' ∧
+      TWf (step m (.emitMsg msg h)).1.d.tab := by
+  cases msg with
+  | nil =>
+    refine ⟨sp, ?_, ?_, ?_⟩
+    · simp [step, Spec.step, dispatchEmit, Spec.isErr]
+    · simp only [step, dispatchEmit]; exact ⟨hr.live, hr.fb, hr.dflt, hr.next⟩
+    · simp only [step, dispatchEmit]; exact hw
+  | cons b rest =>
+    obtain ⟨sp', h1, h2, h3⟩ := refines_resolved (id := b.toUInt64) (h := h) hw hr hs
+    refine ⟨sp', ?_, ?_, ?_⟩
+    · simpa [step, Spec.step, dispatchEmit] using h1
+    · simpa [step, dispatchEmit] using h2
+    · simp only [step, dispatchEmit]; rw [h3]; exact hw
+
+theorem refines_emitNone {m : St} {sp : Spec} {h : HRes} (hw : TWf m.d.tab) (hr : Rel m sp) (hs : SInv sp) :
+    ∃ sp', sp.step (.emitNone h) (step m (.emitNone h)).2 = some sp' ∧ Rel (step m (.emitNone h)).1 sp' ∧
+      TWf (step m (.emitNone h)).1.d.tab := by
+  by_cases hd0 : m.d.dflt = 0
+  · refine ⟨sp, ?_, ?_, ?_⟩
+    · simp [step, Spec.step, dispatchEmit, hd0, hr.dflt]
+    · simp only [step, dispatchEmit, hd0, if_true]; exact ⟨hr.live, hr.fb, hr.dflt, hr.next⟩
+    · simp only [step, dispatchEmit, hd0, if_true]; exact hw
+  · have hsd : ¬ sp.dflt = 0 := by rw [hr.dflt]; exact hd0
+    cases hg : commandGet m.d.tab m.d.dflt with
+    | none =>
+      refine ⟨{ sp with dflt := 0 }, ?_, ?_, ?_⟩
+      · have hlk := hr.lookup_none (commandGet_none hg)
+        rw [← hr.dflt] at hlk
+        simp [step, Spec.step, dispatchEmit, hd0, hsd, hg, hlk, Spec.isErr, Err.code]
+      · simp only [step, dispatchEmit, hd0, if_false, hg]; exact ⟨hr.live, hr.fb, rfl, hr.next⟩
+      · simp only [step, dispatchEmit, hd0, if_false, hg]; exact hw
+    | some c =>
+      obtain ⟨i, s⟩ := c
+      obtain ⟨sp', h1, h2, h3⟩ := refines_resolved (id := m.d.dflt) (h := h) hw hr hs
+      rw [hg] at h1 h2 h3
+      have hlk : sp.lookup sp.dflt = some s.arg := by
+        rw [hr.dflt, lookup_eq hr hs, hg]; rfl
+      have htg : sp.target m.d.dflt = some s.arg := by
+        unfold Spec.target; rw [← hr.dflt, hlk]
+      refine ⟨sp', ?_, ?_, ?_⟩
+      · simp only [Spec.stepEmit, htg] at h1
+        simp only [step, Spec.step, dispatchEmit, hd0, hsd, if_false, hg, hlk]
+        rw [hr.dflt]; exact h1
+      · simpa [step, dispatchEmit, hd0, hg] using h2
+      · simp only [step, dispatchEmit, hd0, if_false, hg]; rw [h3]; exact hw
+
+
+theorem stepHashId_same {sp sp' : Spec} {cid : Option Id} {h : HRes} {out : Out} (hst : sp.stepHashId cid h out = some sp') : sp' = sp := by
+  unfold Spec.stepHashId at hst
+  repeat' split at hst
+  all_goals first | cases hst; rfl | cases hst
+
+theorem findSome_const {α β} {l : List α} {f : α → Option β} {c : β} (hall : ∀ x y, f x = some y → y = c)
+    (hex : ∃ x, x ∈ l ∧ (f x).isSome) : l.findSome? f = some c := by
+  induction l with
+  | nil => obtain ⟨x, hx, _⟩ := hex; cases hx
+  | cons a rest ih =>
+    rw [List.findSome?_cons]
+    cases hfa : f a with
+    | some y => rw [hall a y hfa]
+    | none =>
+      simp only
+      apply ih
+      obtain ⟨x, hx, hs⟩ := hex
+      rw [List.mem_cons] at hx
+      rcases hx with rfl | hx
+      · rw [hfa] at hs; cases hs
+      · exact ⟨x, hx, hs⟩
+
+theorem refines_hash {m : St} {sp : Spec} {msg : List Byte} {h : HRes} (hw : TWf m.d.tab) (hr : Rel m sp) (hs : SInv sp)
+    (hd : hashInDomain msg = true) :
+    ∃ sp', sp.step (.hash msg h) (step m (.hash msg h)).2 = some sp' ∧ Rel (step m (.hash msg h)).1 sp' ∧
+      TWf (step m (.hash msg h)).1.d.tab := by
+  refine ⟨sp, ?_, ?_, ?_⟩
+  · simp only [step, Spec.step]
+    apply findSome_const (fun x y hxy => stepHashId_same hxy)
+    rcases hashId_cmdIds msg hd with ⟨v, hv, hmem⟩ | ⟨hf, hmem⟩
+    · refine ⟨some v, hmem, ?_⟩
+      unfold dispatchHash
+      rw [hv]
+      simp only
+      cases hg : commandGet m.d.tab v with
+      | some x =>
+        obtain ⟨i, s⟩ := x
+        have hu := get_user hw i s hg
+        have hlk : sp.lookup v = some s.arg := by rw [lookup_eq hr hs, hg]; rfl
+        simp only [hu, invoke, Spec.stepHashId, hlk]
+        by_cases hneg : h.val < 0
+        · simp [hneg]
+        · simp [hneg]
+      | none =>
+        have hlk : sp.lookup v = none := by rw [lookup_eq hr hs, hg]; rfl
+        cases he : m.d.err with
+        | none => simp [Spec.stepHashId, hlk, hr.fb, he]
+        | some r => simp [Spec.stepHashId, hlk, hr.fb, he, invoke]
+    · refine ⟨none, hmem, ?_⟩
+      unfold dispatchHash
+      rw [hf]
+      simp [Spec.stepHashId]
+  · simp only [step]; exact ⟨hr.live, hr.fb, hr.dflt, hr.next⟩
+  · simp only [step]; exact hw
+
+theorem refines_fini {m : St} {sp : Spec} (hw : TWf m.d.tab) (hr : Rel m sp) (hs : SInv sp) :
+    ∃ sp', sp.step .fini (step m .fini).2 = some sp' ∧ Rel (step m .fini).1 sp' ∧ TWf (step m .fini).1.d.tab := by
+  have hlog : (commandClear m.d.tab).2 = (liveList m.d.tab).map (.fin ·.2) := by
+    unfold commandClear
+    cases ht : m.d.tab with
+    | none => simp [liveList]
+    | some t => simp only [liveList_some]; exact clear_log (hw.user t ht)
+  refine ⟨{ sp with live := [], fb := none, dflt := 0 }, ?_, ?_, ?_⟩
+  · simp only [step, Spec.step, dispatchFini, hlog]
+    have : Spec.sameSet ((liveList m.d.tab).map (.fin ·.2) ++ errFin m.d.err) (sp.liveRegs.map .fin) = true := by
+      rw [sameSet_iff]
+      have hfb := hr.fb
+      unfold errFin Spec.liveRegs
+      refine ⟨?_, ?_⟩
+      · rw [List.nodup_append]
+        refine ⟨fin_map_nodup hw.regs, ?_, ?_⟩
+        · cases m.d.err <;> simp
+        · intro a ha b hb
+          cases he : m.d.err with
+          | none => rw [he] at hb; simp at hb
+          | some r =>
+            rw [he] at hb
+            simp only [List.mem_singleton] at hb
+            simp only [List.mem_map] at ha
+            obtain ⟨p, hp, rfl⟩ := ha
+            rw [hb]
+            intro hc
+            simp only [LogE.fin.injEq] at hc
+            have h1 := (hr.live p).mp hp
+            rw [he] at hfb
+            have := hs.fb_not_live hfb p.1
+            apply this
+            rw [← hc]; exact h1
+      · intro e
+        rw [hfb]
+        simp only [List.mem_append, List.mem_map]
+        constructor
+        · rintro (⟨p, hp, rfl⟩ | he)
+          · exact ⟨p.2, Or.inl ⟨p, (hr.live p).mp hp, rfl⟩, rfl⟩
+          · cases herr : m.d.err with
+            | none => rw [herr] at he; simp at he
+            | some r =>
+              rw [herr] at he
+              simp only [List.mem_singleton] at he
+              exact ⟨r, Or.inr (by simp), he.symm⟩
+        · rintro ⟨r, (⟨p, hp, rfl⟩ | hr'), rfl⟩
+          · exact Or.inl ⟨p, (hr.live p).mpr hp, rfl⟩
+          · right
+            cases herr : m.d.err with
+            | none => rw [herr] at hr'; simp at hr'
+            | some r0 =>
+              rw [herr] at hr'
+              simp only [List.mem_singleton] at hr'
+              simp [hr']
+    simp only [Spec.isOk, this]
+    simp
+  · simp only [step, dispatchFini]
+    constructor <;> simp [liveList, hr.next]
+  · simp only [step, dispatchFini]; exact TWf.none
+
+
+theorem refines_reserve {m : St} {sp : Spec} {w : Nat} (hw : TWf m.d.tab) (hr : Rel m sp) (hs : SInv sp) :
+    ∃ sp', sp.step (.reserve w) (step m (.reserve w)).2 = some sp' ∧ Rel (step m (.reserve w)).1 sp' ∧
+      TWf (step m (.reserve w)).1.d.tab := by
+  cases hres : commandReserve m.d.tab w with
+  | mk tab' oidx =>
+    cases oidx with
+    | none =>
+      obtain ⟨hlive, hsub⟩ := commandReserve_none hres
+      refine ⟨{ sp with next := sp.next + 1 }, ?_, ?_, ?_⟩
+      · simp [step, Spec.step, hres]
+      · simp only [step, hres]
+        constructor
+        · intro p; simp only [hlive]; exact hr.live p
+        · exact hr.fb
+        · exact hr.dflt
+        · simp [hr.next]
+      · simp only [step, hres]
+        constructor
+        · rw [hlive]; exact hw.keys
+        · rw [hlive]; exact hw.regs
+        · intro t' ht' s hs'
+          obtain ⟨t, ht, hst⟩ := hsub t' ht' s hs'
+          exact hw.user t ht s hst
+    | some idx =>
+      obtain ⟨a, b, idv, m0, cap, typed, htab, hidx, hlive, hsub, hfresh⟩ := commandReserve_some hres
+      subst htab hidx
+      have hget : (a ++ (⟨idv, some .logReply, m0⟩ : Slot) :: b)[a.length]? = some ⟨idv, some .logReply, m0⟩ := by simp
+      have hset : (a ++ (⟨idv, some .logReply, m0⟩ : Slot) :: b).set a.length ⟨idv, some .user, m.next⟩ = a ++ ⟨idv, some .user, m.next⟩ :: b := by
+        simp
+      have hnew : liveL (a ++ (⟨idv, some .user, m.next⟩ : Slot) :: b) = liveL a ++ ((idv, m.next) :: liveL b) := by
+        rw [liveL_append, liveL_cons]; simp [Slot.live]
+      have hmem : ∀ p, p ∈ liveList m.d.tab ↔ p ∈ liveL a ∨ p ∈ liveL b := by
+        intro p; rw [← hlive, List.mem_append]
+      have hk := hw.keys
+      have hrg := hw.regs
+      rw [← hlive] at hk hrg
+      have hfr := hr.fresh hs
+      have hlk : sp.lookup idv = none := hr.lookup_none hfresh
+      have hidv : UInt64.ofNat (idv.toNat : Int).toNat = idv := by simp
+      refine ⟨{ sp with live := sp.live ++ [(idv, sp.next)], next := sp.next + 1, regd := sp.regd ++ [sp.next] }, ?_, ?_, ?_⟩
+      · simp only [step, Spec.step, hres, hget, Option.map_some, Option.getD_some]
+        have h1 : (0 : Int) ≤ (idv.toNat : Int) := Int.natCast_nonneg _
+        have h2 : (idv.toNat : Int) < 18446744073709551616 := by have := idv.toNat_lt; omega
+        simp [h1, h2, hidv, hlk]
+      · simp only [step, hres, activate, hget, hset]
+        constructor
+        · intro p
+          simp only [liveList_some, hnew, List.mem_append, List.mem_cons, List.mem_singleton, ← hr.live p, hmem p, hr.next]
+          grind
+        · exact hr.fb
+        · exact hr.dflt
+        · simp [hr.next]
+      · simp only [step, hres, activate, hget, hset]
+        constructor
+        · rw [liveList_some, hnew]
+          simp only [List.map_append, List.map_cons, List.map_nil, List.nodup_append, List.nodup_cons, List.mem_append, List.mem_cons, List.mem_map] at hk ⊢
+          have hf1 : ∀ r, (idv, r) ∉ liveL a := fun r h => hfresh r ((hmem _).mpr (Or.inl h))
+          have hf2 : ∀ r, (idv, r) ∉ liveL b := fun r h => hfresh r ((hmem _).mpr (Or.inr h))
+          grind
+        · rw [liveList_some, hnew]
+          simp only [List.map_append, List.map_cons, List.map_nil, List.nodup_append, List.nodup_cons, List.mem_append, List.mem_cons, List.mem_map] at hrg ⊢
+          have hf1 : ∀ p, p ∈ liveL a → p.2 ≠ m.next := fun p h => hfr p ((hmem _).mpr (Or.inl h))
+          have hf2 : ∀ p, p ∈ liveL b → p.2 ≠ m.next := fun p h => hfr p ((hmem _).mpr (Or.inr h))
+          grind
+        · intro t' ht' s hs'
+          cases ht'
+          simp only [List.mem_append, List.mem_cons] at hs'
+          have hab : s ∈ a ++ b ∨ s = ⟨idv, some .user, m.next⟩ := by
+            rw [List.mem_append]
+            rcases hs' with h | h | h
+            · exact Or.inl (Or.inl h)
+            · exact Or.inr h
+            · exact Or.inl (Or.inr h)
+          rcases hab with hab | rfl
+          · rcases hsub s hab with ⟨t, ht, hst⟩ | hdead
+            · exact hw.user t ht s hst
+            · intro hc; unfold Slot.live at hdead; rw [hc] at hdead; cases hdead
+          · simp
+
+/-- one step of the model is accepted by the monitor and keeps the refinement relation -/
+theorem step_refines {m : St} {sp : Spec} {op : Op} (hw : TWf m.d.tab) (hr : Rel m sp) (hs : SInv sp)
+    (hd : inDomain op = true) :
+    ∃ sp', sp.step op (step m op).2 = some sp' ∧ Rel (step m op).1 sp' ∧ TWf (step m op).1.d.tab := by
+  cases op with
+  | set id => exact refines_set hw hr hs
+  | cset id => exact refines_cset hw hr hs
+  | clear id => exact refines_clear hw hr hs
+  | clearAll => exact refines_clearAll hw hr hs
+  | emitId id h => exact refines_emitId hw hr hs
+  | emitMsg msg h => exact refines_emitMsg hw hr hs
+  | emitNone h => exact refines_emitNone hw hr hs
+  | hash msg h => exact refines_hash hw hr hs hd
+  | reserve w => exact refines_reserve hw hr hs
+  | fini => exact refines_fini hw hr hs
+
+/-- histories: the monitor accepts the whole trace, and the log stays well-formed -/
+theorem runFrom_refines {ops : List Op} {m : St} {sp : Spec} {L : List LogE} (hw : TWf m.d.tab) (hr : Rel m sp) (hs : SInv sp)
+    (hl : LInv sp L) (hd : ∀ op, op ∈ ops → inDomain op = true) :
+    ∃ sp', sp.run (runFrom m ops).2 = some sp' ∧ Rel (runFrom m ops).1 sp' ∧ TWf (runFrom m ops).1.d.tab ∧ SInv sp' ∧
+      LInv sp' (L ++ logOf (runFrom m ops).2) := by
+  induction ops generalizing m sp L with
+  | nil => exact ⟨sp, rfl, hr, hw, hs, by simpa [runFrom, logOf] using hl⟩
+  | cons op rest ih =>
+    obtain ⟨sp1, h1, hr1, hw1⟩ := step_refines hw hr hs (hd op (by simp))
+    obtain ⟨hs1, hl1⟩ := step_inv h1 hs hl
+    obtain ⟨sp', h2, hr2, hw2, hs2, hl2⟩ := ih hw1 hr1 hs1 hl1 (fun o ho => hd o (by simp [ho]))
+    refine ⟨sp', ?_, hr2, hw2, hs2, ?_⟩
+    · simp only [runFrom, Spec.run, h1]
+      exact h2
+    · simpa [runFrom, logOf, List.append_assoc] using hl2
+
+theorem run_refines (fb : Bool) {ops : List Op} (hd : ∀ op, op ∈ ops → inDomain op = true) :
+    ∃ sp', (Spec.init fb).run (run fb ops).2 = some sp' ∧ Rel (run fb ops).1 sp' ∧ TWf (run fb ops).1.d.tab ∧ SInv sp' ∧
+      LInv sp' (logOf (run fb ops).2) := by
+  have := runFrom_refines (ops := ops) (m := St.init fb) (sp := Spec.init fb) (L := [])
+    (by simpa [St.init] using TWf.none) (Rel.init fb) (SInv.init fb) (LInv.init fb) hd
+  simpa [run] using this
 
 
 end Mpt.Dispatch
